@@ -17,7 +17,8 @@ Decided:
          or removed (every store / delete / mutating call / augmented assignment on the list or an alias is seen);
          BoundRoute.__init__ calls it with old <- route, new <- binding app; the chain a bound route executes is the one compiled
          from that merged list in the same activation (never a chain taken over from another binding: middlewares compare equal
-         by type, so an "equal" stack may hold other instances).
+         by type, so an "equal" stack may hold other instances); Application.__init__ assigns what binding reads off the
+         application (its middlewares first of all) before it binds anything -- the fall-through route included.
 Declined: behaviour of user middlewares; Python's exception unwinding (assumed, given R03.a).
 """
 from . import chain
@@ -40,6 +41,7 @@ def run(rep):
     g(chain.check_phase_sets, rep, 'R03.c', rule_pair='R03.d', rule_order='R03.d', rule_core_env='R03.c')
     g(chain.check_merge_order, rep, 'R03.d')
     g(chain.check_chain_of_this_binding, rep, 'R03.d')
+    g(chain.check_bound_after_state, rep, 'R03.d')
     if not rep.gaps:
         rep.floor('R03.a', 3)
         rep.floor('R03.b', 8)
